@@ -106,26 +106,7 @@ func errorConstructors(p *core.Program, ix *funcIndex) map[*types.Func]errorCons
 		if !ok {
 			continue
 		}
-		ec := errorConstructor{Status: -1}
-		for _, el := range cl.Elts {
-			kv, ok := el.(*ast.KeyValueExpr)
-			if !ok {
-				continue
-			}
-			tv := info.Types[kv.Value]
-			if tv.Value == nil {
-				continue
-			}
-			switch tv.Value.Kind() {
-			case constant.Int:
-				if v, ok := constant.Int64Val(tv.Value); ok && v >= 100 && v < 600 {
-					ec.Status = v
-				}
-			case constant.String:
-				ec.Code = constant.StringVal(tv.Value)
-			}
-		}
-		if ec.Status > 0 && ec.Code != "" {
+		if ec, ok := literalStatusCode(info, cl); ok {
 			out[fn] = ec
 		}
 	}
@@ -178,7 +159,7 @@ func checkC09(p *core.Program, r *core.Report) {
 		}
 		full := fn.FullName()
 		switch {
-		case full == "io.ReadAll" || full == "io/ioutil.ReadAll":
+		case full == "io.ReadAll" || full == "io/ioutil.ReadAll" || full == "(*bytes.Buffer).ReadFrom" || full == "io.Copy":
 			return "body"
 		case full == "encoding/json.Unmarshal" || full == "(*encoding/json.Decoder).Decode":
 			return "decode"
@@ -327,10 +308,40 @@ func isWriterCall(info *types.Info, call *ast.CallExpr, w *types.Var) bool {
 }
 
 // senderConstructor: for X(err).send(w) (or send(w, X(err))) find the constructor X.
+// literalStatusCode reads the constant (status, code) pair of an error literal.
+func literalStatusCode(info *types.Info, cl *ast.CompositeLit) (errorConstructor, bool) {
+	ec := errorConstructor{Status: -1}
+	for _, el := range cl.Elts {
+		kv, ok := el.(*ast.KeyValueExpr)
+		if !ok {
+			continue
+		}
+		tv := info.Types[kv.Value]
+		if tv.Value == nil {
+			continue
+		}
+		switch tv.Value.Kind() {
+		case constant.Int:
+			if v, ok := constant.Int64Val(tv.Value); ok && v >= 100 && v < 600 {
+				ec.Status = v
+			}
+		case constant.String:
+			ec.Code = constant.StringVal(tv.Value)
+		}
+	}
+	return ec, ec.Status > 0 && ec.Code != ""
+}
+
 func senderConstructor(info *types.Info, sink *ast.CallExpr, ctors map[*types.Func]errorConstructor) (errorConstructor, bool) {
 	var found errorConstructor
 	ok := false
 	ast.Inspect(sink, func(n ast.Node) bool {
+		// the error value written out as a literal at the call site
+		if cl, isLit := n.(*ast.CompositeLit); isLit {
+			if ec, isC := literalStatusCode(info, cl); isC {
+				found, ok = ec, true
+			}
+		}
 		if c, isCall := n.(*ast.CallExpr); isCall && c != sink {
 			if fn, _ := typeutil.Callee(info, c).(*types.Func); fn != nil {
 				if ec, isC := ctors[fn.Origin()]; isC {
@@ -674,9 +685,69 @@ type lengthFact struct {
 
 // shapeFacts extracts the length equalities a ValidateShape-like method enforces.
 func shapeFacts(eng *tf.Engine, fn *ssa.Function) ([]lengthFact, []string) {
-	ev := eng.NewEval(fn)
+	root := eng.NewEval(fn)
 	var facts []lengthFact
 	var notes []string
+	root.Events() // evaluates every call, which creates the activations of inlined helpers
+	root.WalkActivations(func(ev *tf.Eval) {
+		// a helper's verdict counts only if its error reaches the validator's own result: every call on the chain up to the
+		// validator is either returned as it is or tested `!= nil` with the failing edge returning an error
+		for a := ev; a.Parent != nil; a = a.Parent {
+			if !errorResultPropagates(a.Site) {
+				return
+			}
+		}
+		scanShapeTests(root, ev, &facts, &notes)
+	})
+	return facts, notes
+}
+
+// errorResultPropagates: the error returned by this call makes the calling function return a non-nil error.
+func errorResultPropagates(site ssa.CallInstruction) bool {
+	v := site.Value()
+	if v == nil || v.Referrers() == nil {
+		return false
+	}
+	var vals []ssa.Value
+	vals = append(vals, v)
+	for _, ref := range *v.Referrers() {
+		if ex, ok := ref.(*ssa.Extract); ok && isErrorType(ex.Type()) {
+			vals = append(vals, ex)
+		}
+	}
+	for _, x := range vals {
+		if !isErrorType(x.Type()) || x.Referrers() == nil {
+			continue
+		}
+		for _, ref := range *x.Referrers() {
+			switch u := ref.(type) {
+			case *ssa.Return:
+				return true
+			case *ssa.BinOp:
+				if u.Op != token.NEQ && u.Op != token.EQL {
+					continue
+				}
+				for _, r2 := range *u.Referrers() {
+					if iff, ok := r2.(*ssa.If); ok {
+						fail := iff.Block().Succs[0]
+						if u.Op == token.EQL {
+							fail = iff.Block().Succs[1]
+						}
+						if returnsError(fail) {
+							return true
+						}
+					}
+				}
+			}
+		}
+	}
+	return false
+}
+
+func scanShapeTests(root, ev *tf.Eval, factsP *[]lengthFact, notesP *[]string) {
+	facts, notes := *factsP, *notesP
+	defer func() { *factsP, *notesP = facts, notes }()
+	fn := ev.Fn
 	for _, b := range fn.Blocks {
 		if len(b.Instrs) == 0 {
 			continue
@@ -736,21 +807,20 @@ func shapeFacts(eng *tf.Engine, fn *ssa.Function) ([]lengthFact, []string) {
 		}
 		// bound: a parameter
 		bi := -1
-		for i, prm := range ev.Params {
-			if i > 0 && tf.Eq(y, prm) {
+		for i, prm := range root.Params {
+			if i > 0 && tf.Eq(stripConv(y), stripConv(prm)) {
 				bi = i - 1
 			}
 		}
 		if bi < 0 {
 			continue
 		}
-		path, ok := fieldPath(x.Args[0], ev.Params[0])
+		path, ok := fieldPath(x.Args[0], root.Params[0])
 		if !ok {
 			continue
 		}
 		facts = append(facts, lengthFact{path, bi})
 	}
-	return facts, notes
 }
 
 func returnsError(b *ssa.BasicBlock) bool {
